@@ -1,6 +1,6 @@
 //! Defines the arithmetic operators used in the query language
 
-use crate::function::Variant;
+use crate::function::{Variant, VariantType};
 
 #[derive(Debug, Clone, Eq, Hash, PartialEq, PartialOrd, Serialize)]
 pub enum LogicalOp {
@@ -96,6 +96,12 @@ impl ArithmeticOp {
     }
 
     pub fn calc(&self, left: &Variant, right: &Variant) -> Variant {
+        // an operand without a value (the line count of an unreadable file, the width of what is
+        // no picture) leaves the result without a value: it does not count as 0
+        if left.to_string().is_empty() || right.to_string().is_empty() {
+            return Variant::empty(VariantType::Float);
+        }
+
         let result = match &self {
             ArithmeticOp::Add => left.to_float() + right.to_float(),
             ArithmeticOp::Subtract => left.to_float() - right.to_float(),
